@@ -769,6 +769,105 @@ pub fn part_derived_roundtrip(args: &Args) -> Part {
     }))
 }
 
+/// C12 on texts with NEGATIVE literals: a folded negative constant prints with a leading `-`, which must not be
+/// merged with the operator in front of it (`a max b + -1.5` is not `a max b-1.5`: binary `-` binds tighter than `+`).
+pub fn part_negative_literals(args: &Args) -> Part {
+    let quick = args.tier_quick();
+    let tab = default_float_table(true);
+    table::set_table(&tab);
+    let o = ops();
+    let bins = [o.add, o.sub, o.mul, o.div, o.pow, k("max"), k("min"), k("atan2")];
+    let negl = |s: &str| Tree::un(o.sub, l(s));
+    let leaves = [v("x"), v("y"), l("2"), negl("1.5"), negl("2"), Tree::un(o.sub, Tree::un(o.sub, l("3")))];
+    let mut pool: Vec<Tree> = vec![];
+    for &k1 in &bins {
+        for a in &leaves {
+            for c in &leaves {
+                pool.push(Tree::bin(k1, a.clone(), c.clone()));
+                pool.push(Tree::un(k("sin"), Tree::bin(k1, a.clone(), c.clone())));
+            }
+        }
+    }
+    let mut ctr = args.seed();
+    for &k1 in &bins {
+        for &k2 in &bins {
+            for a in &leaves {
+                for c in &leaves {
+                    for d in &leaves {
+                        // at least one negative literal, at least one variable
+                        let all = [a, c, d];
+                        if !all.iter().any(|t| matches!(t, Tree::Un(..))) || !all.iter().any(|t| matches!(t, Tree::Var(_))) {
+                            continue;
+                        }
+                        ctr += 1;
+                        if quick && ctr % 3 != 0 {
+                            continue;
+                        }
+                        pool.push(Tree::bin(k1, Tree::bin(k2, a.clone(), c.clone()), d.clone()));
+                        pool.push(Tree::bin(k1, a.clone(), Tree::bin(k2, c.clone(), d.clone())));
+                    }
+                }
+            }
+        }
+    }
+    let _ = std::panic::take_hook();
+    std::panic::set_hook(Box::new(|_| {}));
+    let tabc = tab.clone();
+    let (out, wall) = par_calc(args, &tab, true, &pool, &move |t: &Tree, _i, out| {
+        let text = render(t, &Style::default());
+        out.stats.programs += 1;
+        out.stats.note_text(0, &text);
+        for form in [Form::Deep, Form::FlatFromDeep, Form::DeepFromFlat, Form::Flat] {
+            let (paths, _) = explore(8, || {
+                let fval = t.to_sym().0;
+                let r = catch_unwind(AssertUnwindSafe(|| differentiate(form, &text, &[])));
+                let mut res: Vec<(&'static str, String, String, String)> = vec![];
+                match r {
+                    Err(p) => res.push(("panic", String::new(), String::new(), panic_msg(p))),
+                    Ok(Err(e)) => res.push(("rejected", String::new(), String::new(), e.msg().to_string())),
+                    Ok(Ok(d)) => match &d.reparsed {
+                        Err(m) => res.push(("reparse", String::new(), String::new(), format!("printed text `{}` does not parse: {m}", d.text))),
+                        Ok((rv, rn)) => {
+                            if rn.iter().any(|n| !d.names.contains(n)) {
+                                res.push(("reparse", format!("{rn:?}"), format!("{:?}", d.names), format!("printed text `{}` has other variables", d.text)));
+                            }
+                            if *rv != d.der {
+                                let (vd, _) = decide_nra(*rv, d.der, &[fval], false);
+                                match vd {
+                                    Verdict::Unsat => {}
+                                    Verdict::Sat => res.push(("reparse", show_term(*rv), show_term(d.der), format!("printed text `{}` parses back to a different expression", d.text))),
+                                    Verdict::Inconclusive => res.push(("inconclusive", String::new(), String::new(), format!("reparse of `{}`", d.text))),
+                                }
+                            }
+                        }
+                    },
+                }
+                res
+            });
+            out.paths += paths.len() as u64;
+            out.stats.vcs += 1;
+            for p in paths {
+                for (kind, imp, rf, detail) in p.result {
+                    let f = mk_finding(kind, form.name(), &tabc, &text, Some(t), imp, rf, detail);
+                    if kind == "inconclusive" {
+                        if out.findings.len() < 12 {
+                            out.findings.push(f);
+                        }
+                    } else {
+                        push(out, f);
+                    }
+                }
+            }
+        }
+    });
+    let _ = std::panic::take_hook();
+    to_part("negative-literals-roundtrip", out, wall, json!({
+        "pool": format!("{} trees over + - * / ^ max min atan2 with leaves x y 2 -1.5 -2 --3 (two leaves: all; under sin; three leaves, both shapes, at least one negative literal and one variable{})", pool.len(), if quick { ", every 3rd" } else { "" }),
+        "literals": "exact rationals; a folded negative constant prints with a leading `-` like a negative float",
+        "check": "parse(unparse(e)) for e = DeepEx::parse, FlatEx::from_deepex(DeepEx::parse), FlatEx::parse.to_deepex, FlatEx::parse: no additional variables and, decided by the solver (NRA, max/min/atan2 uninterpreted), the same value",
+    }))
+}
+
 /// C11 with DERIVED replacements: constants that still declare variables (results of differentiation or of the
 /// neutral-element shortcuts). Value must be the original with the variable bound to the constant; the variable
 /// list must be the sorted union of the untouched variables and the replacement's declared variables.
